@@ -16,6 +16,11 @@ def check(rep, tier, rng):
     for ctag, items in specgen.names_catalog():
         cases.append({"text": specgen.render(items), "items": items, "kind": "names", "mode": "plain"})
         cases.append({"text": specgen.render(rng.shuffle(items), specgen.Layout(rng, "light")), "items": items, "kind": "names", "mode": "light"})
+    # the end of the text: a comment after the last declaration, with and without a final line end
+    for c in list(cases[:60]):
+        if c.get("items") is not None:
+            for tail in ("// end", "// end\r", "/* end */", " /**/ //", "\n\n//\n"):
+                cases.append({"text": c["text"] + tail, "items": c["items"], "kind": "tail-comment", "mode": ""})
     res = t3.run_texts([c["text"] for c in cases])
     tie_breaks, nviol, distinct = [], 0, set()
     kinds = {}
